@@ -12,6 +12,8 @@ ENV = dict(os.environ, ASAN_OPTIONS='detect_leaks=0:abort_on_error=0', UBSAN_OPT
 
 def sh(cmd, timeout=600, inp=None, cwd=None, env=None):
     t0 = time.time()
+    if cmd and cmd[0] in ('coqc', 'make', 'coqchk'):
+        cmd = ['bash', '-c', 'ulimit -v 24000000; exec "$@"', 'bash'] + list(cmd)       # a runaway coqc must not take the machine down
     try:
         p = subprocess.run(cmd, input=inp, capture_output=True, text=True, timeout=timeout, cwd=cwd, env=env or ENV)
         return p.returncode, p.stdout, p.stderr, time.time() - t0
